@@ -489,10 +489,8 @@ func kGraph(out *sink, toks []string) string {
 					ListRules: &list_j5pb.OpenTextRules{Searching: &list_j5pb.SearchingConstraint{Searchable: true}},
 				}}}
 			} else {
-				tk, ok := kinds[p.target]
-				if !ok {
-					return "bad-op"
-				}
+				// a target that is not a node is a reference nothing resolves (object field)
+				tk := kinds[p.target]
 				f = refField(tk, p.target)
 				switch p.how {
 				case "a":
@@ -544,6 +542,10 @@ func kGraph(out *sink, toks []string) string {
 	var client *client_j5pb.API
 	r := stage(stageTimeout, func() (err error) { client, err = j5client.APIFromSource(api); return })
 	out.count("graph." + r.class)
+	if r.class == "err" && classify(r.detail) == "unresolved-ref" {
+		out.count("graph.unresolved-ref")
+		return "err"
+	}
 	if r.class != "ok" {
 		out.fail("graph-"+r.sig("client"), r.detail)
 		return r.class
@@ -804,7 +806,11 @@ func genKernel(h *vh.H, i int) string {
 				if h.Chance(1, 3) {
 					toks = append(toks, p, "s", "-")
 				} else {
-					toks = append(toks, p, vh.Pick(h, []string{"d", "d", "d", "a", "m"}), vh.Pick(h, names))
+					target := vh.Pick(h, names)
+					if h.Chance(1, 40) {
+						target = "ZZ" // unresolved reference: assertRefsLink must refuse the schema set
+					}
+					toks = append(toks, p, vh.Pick(h, []string{"d", "d", "d", "a", "m"}), target)
 				}
 			}
 		}
